@@ -192,8 +192,13 @@ pub fn check_case(ctx: &Ctx, c: &Case, info: &mut CaseInfo) -> Outcome {
     let mut detail = None;
     for fi in 0..p.m.ws.files.len() {
         let loc = p.m.ws.files[fi].loc.clone();
-        if loc.is_plugin() || loc.is_third_party() {
+        // workspace plugin modules (editable installs) are documents people edit too; files in
+        // site-packages are not
+        if loc.is_third_party() {
             continue;
+        }
+        if loc.is_plugin() {
+            info.classes.push("completion inside a workspace plugin module".into());
         }
         let path = p.path(fi);
         let r = p.m.rendered[fi].clone();
@@ -255,10 +260,21 @@ pub fn check_case(ctx: &Ctx, c: &Case, info: &mut CaseInfo) -> Outcome {
                         return Outcome::Fail(format!("{}: completion offers {:?} on a line outside any test / fixture / fixture-mark region", here, labels.iter().map(|l| &l.0).collect::<Vec<_>>()));
                     }
                 }
+                "marks" if loc.is_plugin() => {}
                 "marks" => {
                     let e = expected(&p.m, fi, None, &sens);
                     if let Err(m) = judge(&labels, &e, &sens, true) {
                         return Outcome::Fail(format!("{} (fixture-mark argument list): {}", here, m));
+                    }
+                }
+                _ if loc.is_plugin() => {
+                    // which fixtures are "visible from" a plugin module is not something the property
+                    // (or pytest) defines by file location: only the sort group of the module's OWN
+                    // fixtures is judged here - they are same-file entries
+                    let own: BTreeMap<String, u8> = r.defs.iter().map(|d| (d.name.clone(), 0u8)).collect();
+                    let e = Exp { must: BTreeSet::new(), may: BTreeSet::new(), class: own };
+                    if let Err(m) = judge(&labels, &e, &sens, false) {
+                        return Outcome::Fail(format!("{} (workspace plugin module): {}", here, m));
                     }
                 }
                 _ => {
